@@ -424,6 +424,21 @@ class Executor(Evaluator):
             outs = nxt
         return [Outcome('normal', x) for x in outs]
 
+    def ex_With(self, s, st):
+        """`with E as v: body` for context managers whose __enter__ returns the object itself (files, streams);
+        __exit__ is modelled as the object's close() contract when it has one, and never swallows exceptions"""
+        if len(s.items) != 1:
+            raise Unsupported('with several items')
+        item = s.items[0]
+        outs = []
+        for s2, v in self.ev(item.context_expr, st):
+            sts = [s2]
+            if item.optional_vars is not None:
+                sts = self.assign(item.optional_vars, v, s2)
+            for s3 in sts:
+                outs += self.ex_block(s.body, s3)
+        return outs
+
     def ex_Try(self, s, st):
         if s.finalbody:
             raise Unsupported('try/finally')
@@ -679,7 +694,7 @@ class Executor(Evaluator):
             if all(x.eq(y) for x, y in zip(a0, a1)):
                 continue
             if key[0] == 'g':
-                if key[1] == '$probe':
+                if key[1] in ('$probe', '$ui_state', '$controller'):
                     continue          # ghost parameter, set by ghost code only
                 if key[1] == '$epoch':
                     if keeps_epoch:
@@ -920,8 +935,17 @@ class Executor(Evaluator):
             for p, a in zip(params[:i], allargs[:i]):
                 bound[p.name] = a
             bound[params[i].name] = mk_tuple(allargs[i:])
-            if (any(p.kind == p.VAR_KEYWORD for p in params) and kwargs) or len(allargs) < i:
-                raise Unsupported('**kwargs / missing positional')
+            for p in params[len(allargs):i]:
+                if p.name in kwargs:
+                    continue
+                if p.default is inspect.Parameter.empty:
+                    raise Unsupported('missing positional %s' % p.name)
+                bound[p.name] = self.lift_const(p.default)
+            self._bind_kwargs(fn, params, kwargs, bound)
+            for p in params[i + 1:]:
+                if p.kind == p.KEYWORD_ONLY or p.kind == p.POSITIONAL_OR_KEYWORD:
+                    if p.name not in bound and p.default is not inspect.Parameter.empty:
+                        bound[p.name] = self.lift_const(p.default)
             return bound
         for p, a in zip(params, allargs):
             bound[p.name] = a
@@ -935,6 +959,17 @@ class Executor(Evaluator):
             else:
                 raise Unsupported('missing argument %s for %s' % (p.name, fn.__qualname__))
         return bound
+
+    def _bind_kwargs(self, fn, params, kwargs, bound):
+        names = {p.name for p in params}
+        has_varkw = any(p.kind == p.VAR_KEYWORD for p in params)
+        for k, v in kwargs.items():
+            if k in names or has_varkw:
+                bound[k] = v
+            else:
+                raise Unsupported('unexpected keyword %s for %s' % (k, getattr(fn, '__qualname__', fn)))
+        if has_varkw:
+            bound['kwargs_names'] = self.lift_const(','.join(sorted(k for k in kwargs if k not in names)))
 
     def dispatch_targets(self, fn, recv, st):
         """dynamic dispatch: [(state, function)] over the overrides feasible for the receiver's class"""
